@@ -260,6 +260,8 @@ def main(argv=None):
     ctx = Ctx(a.pid, a.tier if a.tier in ("quick", "thorough") else "quick", seed, getattr(mod, "LEVEL", "exploration"))
     try:
         mod.run(ctx)
+        from vf import frame
+        frame.check(ctx, a.pid)  # frame condition shared by all properties (vf/frame.py)
     except Exception:
         traceback.print_exc()
         ctx.defects.append(traceback.format_exc()[-1500:])
